@@ -26,10 +26,15 @@ type scenario struct {
 	src    parkit.Source
 	cores  int
 	assign []int // part "partition": feature i of the source is delivered by goroutine assign[i]
+	// part "partition", compact builder: departures from the default schedule allowed
+	deviations int
 }
 
 func (s scenario) String() string {
 	if s.part == "partition" {
+		if s.deviations > 0 {
+			return fmt.Sprintf("%s %s %s delivered-by=%v deviations<=%d", s.part, s.kind, s.src.Name, s.assign, s.deviations)
+		}
 		return fmt.Sprintf("%s %s %s delivered-by=%v", s.part, s.kind, s.src.Name, s.assign)
 	}
 	return fmt.Sprintf("%s %s %s cores=%d", s.part, s.kind, s.src.Name, s.cores)
@@ -84,21 +89,36 @@ func main() {
 					}
 				}
 			}
+			// thorough: the partitions of the small sources again for the compact
+			// builder with one departure from the default schedule allowed (≈5000
+			// executions of ≈15 ms each per partition); last in the space, so that
+			// a deadline cuts these first
+			if tier == "thorough" {
+				for _, src := range srcs {
+					n := len(src.Spec)
+					if n > 6 || n < 2 {
+						continue
+					}
+					for code := 1; code < 1<<(n-1); code++ {
+						assign := make([]int, n)
+						for k := 1; k < n; k++ {
+							assign[k] = (code >> (k - 1)) & 1
+						}
+						parts = append(parts, scenario{part: "partition", kind: "compact", src: src, cores: 2, assign: assign, deviations: 1})
+					}
+				}
+			}
 			// basic: phase-confined preemption bounding; compact: deviation bounding
 			// (bound 0 = each partition with goroutine 0's list first, then goroutine 1's)
 			partBasicBound, partCompactBound, partExec := 1, 0, int64(3000)
 			if tier == "thorough" {
-				partBasicBound, partCompactBound, partExec = 2, 1, 6000
+				partBasicBound, partCompactBound, partExec = 2, 1, 8000
 			}
 			return kit.FuncSpace{N: int64(len(sc) + nVal + len(parts)), F: func(i int64) kit.Result {
 				if i >= int64(len(sc)+nVal) {
 					ps := parts[i-int64(len(sc)+nVal)]
 					if ps.kind == "compact" {
-						b := partCompactBound
-						if len(ps.src.Spec) > 6 {
-							b = 0 // one execution per partition for the larger sources (each compact execution costs ~80 ms)
-						}
-						return runBuild(ps, tier, sched.Options{MaxPreemptions: b, AllDeviations: true, MaxExecutions: partExec, Horizon: 100000})
+						return runBuild(ps, tier, sched.Options{MaxPreemptions: ps.deviations, AllDeviations: true, MaxExecutions: partExec, Horizon: 100000})
 					}
 					return runBuild(ps, tier, sched.Options{MaxPreemptions: partBasicBound, MaxExecutions: 10 * partExec, Horizon: 100000, SinglePhase: true})
 				}
@@ -138,7 +158,7 @@ func main() {
 					opts = sched.Options{MaxPreemptions: compactBound, AllDeviations: true, MaxExecutions: maxExec, Horizon: 100000}
 				}
 				return runBuild(s, tier, opts)
-			}}, fmt.Sprintf("%d build scenarios (%d sources x 2 builders: configs with cores 2..16 run natively; sched with 2 cores under the controlled scheduler: basic builds every interleaving with at most %d preemptions, deviations confined to one phase between quiescent points, cap %d executions; compact builds every schedule with at most %d departures from the default schedule, cap %d executions) + %d partition scenarios (every order-preserving split of each source's features over 2 delivering goroutines x 2 builders under the controlled scheduler: basic at most %d preemptions confined to one phase, compact at most %d departures from the default schedule for sources of up to 6 features and 0 for larger ones (0 = one goroutine's list after the other's), cap %d executions) + %d validator scenarios (every ordered delivery of 2..k of 10 menu features (4 paths: closed ccw, open, missing point, closed cw; 6 areas over them, one over a path never delivered) to 2 goroutines (k<=%d) and 3 goroutines (k<=%d), every interleaving, no bound)", len(sc), len(srcs), basicBound, 20*maxExec, compactBound, maxExec, len(parts), partBasicBound, partCompactBound, partExec, len(vals), 5, map[bool]int{false: 4, true: 5}[tier == "thorough"])
+			}}, fmt.Sprintf("%d build scenarios (%d sources x 2 builders: configs with cores 2..16 run natively; sched with 2 cores under the controlled scheduler: basic builds every interleaving with at most %d preemptions, deviations confined to one phase between quiescent points, cap %d executions; compact builds every schedule with at most %d departures from the default schedule, cap %d executions) + %d partition scenarios (every order-preserving split of each source's features over 2 delivering goroutines x 2 builders under the controlled scheduler: basic at most %d preemptions confined to one phase, compact: the default schedule of every partition (one goroutine's list after the other's) and, in the thorough tier, every schedule with at most %d departure from it for sources of up to 6 features, cap %d executions) + %d validator scenarios (every ordered delivery of 2..k of 10 menu features (4 paths: closed ccw, open, missing point, closed cw; 6 areas over them, one over a path never delivered) to 2 goroutines (k<=%d) and 3 goroutines (k<=%d), every interleaving, no bound)", len(sc), len(srcs), basicBound, 20*maxExec, compactBound, maxExec, len(parts), partBasicBound, partCompactBound, partExec, len(vals), 5, map[bool]int{false: 4, true: 5}[tier == "thorough"])
 		},
 	})
 }
